@@ -26,7 +26,30 @@ pub mod c18;
 pub mod c13;
 pub mod c14;
 
+/// Views that perform no comparison of their own on data: a unit that involves only these has a single path on the unchanged tree, so
+/// following a sampled comparison path buys nothing there — while exploring all outcomes makes every value-dependent guard that a
+/// change introduces (a cancellation test, a magnitude threshold) a branch taken on both sides, at any window length.
+fn comparison_free(id: &str) -> bool {
+    const FREE: &[&str] = &["Sma", "Ema", "Alma", "AlmaCustom", "Cumulative", "LaguerreFilter", "SuperSmoother", "CyberCycle", "Roofing", "Echo"];
+    // every capitalised identifier in the unit id that names a view must be one of the above
+    let mut any = false;
+    let mut tok = String::new();
+    for ch in id.chars().chain(std::iter::once(' ')) {
+        if ch.is_ascii_alphanumeric() { tok.push(ch); continue; }
+        let prop_tag = tok.len() == 3 && tok.starts_with('C') && tok[1..].chars().all(|c| c.is_ascii_digit());
+        if tok.chars().next().map_or(false, |c| c.is_ascii_uppercase()) && tok.len() > 2 && !prop_tag {
+            if FREE.contains(&tok.as_str()) { any = true; } else if !["Affine", "Same", "Scale", "Negate", "Shift", "Free", "Decreasing", "Increasing", "Alternating", "AltThenFlat", "Constant", "Cycle3", "Free3ThenFlat", "FlatThenFree3"].contains(&tok.as_str()) { return false; }
+        }
+        tok.clear();
+    }
+    any
+}
 pub fn units(prop: &str, tier: Tier, seed: u64) -> Option<(Vec<Unit>, Meta)> {
+    let (mut us, meta) = units_raw(prop, tier, seed)?;
+    for u in us.iter_mut() { if u.concolic.is_some() && comparison_free(&u.id) { u.concolic = None; u.path_cap = u.path_cap.min(400); } }
+    Some((us, meta))
+}
+fn units_raw(prop: &str, tier: Tier, seed: u64) -> Option<(Vec<Unit>, Meta)> {
     Some(match prop {
         "C01" => (c01::units(tier, seed), c01::meta()),
         "C02" => (c02::units(tier, seed), c02::meta()),
